@@ -33,8 +33,15 @@ def close_all(a, b, tol):
 
 def ode_part(ctx):
     for name, e in odes.E.items():
-        for k in range(ctx.scale(4, 16)):
+        # wrappers that build their tables edge by edge from explicit node sets are the ones in which the ORIENTATION in which
+        # G.edges() reports an edge (= insertion order of its end points) can leak into the result: four times as many cases,
+        # all with explicit sets
+        edgewise = "heterogeneous_pairwise_from_graph" in name or "effective_degree_from_graph" in name
+        sets_styles = [st for st in e["ic"] if st.startswith("sets")]
+        for k in range(ctx.scale(4, 16) * (4 if edgewise and sets_styles else 1)):
             style = e["ic"][k % len(e["ic"])]
+            if edgewise and sets_styles and k >= ctx.scale(4, 16):
+                style = sets_styles[k % len(sets_styles)]
             G, gkind = odes.graph(ctx.rng, small=e["small"])
             N = G.order()
             if len(set(dict(G.degree()).values())) == 1 and name.startswith("SIS_super_compact"):
